@@ -63,7 +63,7 @@ theorem step_release {s s' : State} {t k : Nat} {r : WaitResult} (hs : step s (.
     exact hr
 
 theorem step_releaseSelf {s s' : State} {t k : Nat} (hs : step s (.releaseSelf t k) = some s') :
-    releaseSelf (touch (touch s t) k) k = some s' := by
+    releaseSelf (touch (touch s t) k) t k = some s' := by
   simp only [step, stepA] at hs
   cases hc : (idle (touch (touch s t) k) t && ownedBy (touch (touch s t) k) k t) with
   | false => simp [hc] at hs
